@@ -87,6 +87,9 @@ struct WorldH : World {
     int64_t lat = sc.geti("lat", 0);
     if (lat) k->block([] { return false; }, k->clock + lat, false);
     size_t off = 0; while (off < o.size()) { ssize_t w = k->sys_write(1, o.data() + off, std::min<size_t>(o.size() - off, 700)); if (w <= 0) break; off += (size_t)w; }
+    // an agent may close its output and only then, some time later, exit or crash: end of file on the pipe and the wait status
+    // are separate pieces of news, and the verdict needs both
+    if (sc.geti("linger", 0) > 0) { k->sys_close(1); k->sys_close(2); k->block([] { return false; }, k->clock + sc.geti("linger", 0), false); }
     if (sc.getb("crash", false)) k->kill_proc(p, 11);
     return (int)sc.geti("code", 0);
   }
